@@ -48,6 +48,7 @@ class Contract:
         self.await_hook = kw.pop("await_hook", None)
         self.max_paths = kw.pop("max_paths", 4000)
         self.ghost = kw.pop("ghost", {})  # name -> Spec: universally quantified ghost constants of the contract
+        self.returns = kw.pop("returns", None)  # the exact result as a function of the arguments (must follow from ensures)
         self.impl = kw.pop("impl", None)  # python stand-in executed by callers (assumed contract given as code)
         self.inline = kw.pop("inline", False)  # callers execute the body; on_inline(args, result) records ghosts
         self.on_inline = kw.pop("on_inline", None)
@@ -444,7 +445,9 @@ def call_contract(con: Contract, real, args, kwargs):
         parts = path.split(".")
         havoc_path(bound[parts[0]], parts[1:], f"{tag}.{path}")
     result = None
-    if con.result is not None:
+    if con.returns is not None:
+        result = call_with(con.returns, avail)
+    elif con.result is not None:
         rs = con.result(**{k2: v for k2, v in avail.items() if k2 in inspect.signature(con.result).parameters}) \
             if callable(con.result) and not isinstance(con.result, ty.Spec) else con.result
         result = rs.fresh(c.fresh_name(f"{tag}.result")) if isinstance(rs, ty.Spec) else rs
